@@ -16,6 +16,7 @@ import (
 // C01: static parse transcribes every valid row faithfully, whatever the presentation.
 
 type CaseStatic struct {
+	vt.Env
 	Feed    *sgen.Feed
 	Pres    sgen.Presentation
 	Inherit bool
@@ -123,6 +124,7 @@ func propC01(t *rapid.T) {
 	}
 	p, dims := sgen.GenPresentation(t, f.Tables())
 	c := CaseStatic{Feed: f, Pres: p, Inherit: rapid.Bool().Draw(t, "inherit")}
+	c.Env = genEnv(t)
 	classes, files2 := staticClasses(f, info, dims)
 	if inflated > 0 {
 		classes = append(classes, fmt.Sprintf("inflated-to-%d-rows", inflated))
